@@ -86,12 +86,14 @@ func (c *RuntimeContext) Init(p uintptr, codelen int) {
 		c.Ptrs = make([]uintptr, codelen)
 	}
 	c.Ptrs[0] = p
+	verifSlotInit(c)
 	c.KeepRefs = c.KeepRefs[:0]
 	c.SeenPtr = c.SeenPtr[:0]
 	c.BaseIndent = 0
 }
 
 func (c *RuntimeContext) Ptr() uintptr {
+	verifSlotPtrs(c)
 	header := (*runtime.SliceHeader)(unsafe.Pointer(&c.Ptrs))
 	return uintptr(header.Data)
 }
@@ -101,5 +103,6 @@ func TakeRuntimeContext() *RuntimeContext {
 }
 
 func ReleaseRuntimeContext(ctx *RuntimeContext) {
+	verifSlotRelease(ctx)
 	runtimeContextPool.Put(ctx)
 }
